@@ -377,6 +377,7 @@ type Clause struct {
 	Text   string
 	Loop   int    // loop ordinal for invariants (1-based)
 	Anchor string // statement text for assert/ghost/lemma
+	Resolved string // the statement the anchor was matched to by shape when its exact text no longer exists (see resolveAnchors)
 	Before bool
 	Occ    int    // occurrence of anchor (1-based, 0 = must be unique)
 	Target string // ghost assignment target (spec path text)
